@@ -368,6 +368,8 @@ func (c dnsrespComp) Gen(r *Rand, tier string, emit func(string)) {
 			}
 		}
 	}
+	// (5) escaping x chunk boundaries (see boundarySweep)
+	c.boundarySweep(r, thorough, emit)
 	// (4) random
 	n := 600
 	if thorough {
@@ -394,5 +396,196 @@ func (c dnsrespComp) Gen(r *Rand, tier string, emit func(string)) {
 			f = fmt.Sprintf("c _ %d 1 %d %s", r.Intn(65536), r.Intn(65536), hexs(stressBytes(r, r.Intn(1300), r.Intn(5))))
 		}
 		c.emitResp(emit, k, domain, rr, f)
+	}
+}
+
+// ---- escaping x chunk boundaries ----
+//
+// Every wrapper cuts the encoded stream into pieces (TXT character strings of 253 bytes, 250 strings per record;
+// NULL/PRIVATE records of 65530; A of 3; AAAA of 14; CNAME/MX labels of 63 and records of GetLongestDataString;
+// SRV one label) and several of them escape, or rely on miekg escaping, special bytes.  An escape that is
+// applied on the wrong side of the cut can be split in half exactly at a piece boundary, so the sweep puts every
+// special byte (and the escape sequences themselves) at every stream offset in a window around the first three
+// boundaries of every splitting record type, for streams that end just before / at / just after / well after the
+// boundary, for every codec: Raw places the byte directly, the other codecs are searched through the real
+// encoder until the encoded stream carries an escapable byte at that offset.
+
+// streamOf returns the encoded response stream the wrappers get for a packet response carrying data.
+func streamOf(letter string, data []byte) (out []byte) {
+	defer func() {
+		if e := recover(); e != nil {
+			out = nil
+		}
+	}()
+	codec, err := codecOf(letter, nil)
+	if err != nil {
+		return nil
+	}
+	resp := &commands.PacketResponse{LastAckedSeqNo: 1, Packet: &util.Packet{SeqNo: 2, Data: data}}
+	b, err := resp.Encode(codec)
+	if err != nil {
+		return nil
+	}
+	return b
+}
+
+// payloadForStreamLen: a filler payload whose stream is at least want bytes long (shortest such).
+func payloadForStreamLen(r *Rand, letter string, want int) []byte {
+	const fill = "abcdefghijklmnopqrstuvwxyz0123456789ABCDEFGHIJKLMNOPQRSTUVWXYZ"
+	mk := func(n int) []byte {
+		b := make([]byte, n)
+		for i := range b {
+			if letter == "R" {
+				b[i] = fill[r.Intn(len(fill))]
+			} else {
+				b[i] = byte(r.Next())
+			}
+		}
+		return b
+	}
+	lo, hi := 0, want+8
+	for lo < hi { // stream length is monotone in the payload length
+		mid := (lo + hi) / 2
+		if len(streamOf(letter, make([]byte, mid))) >= want {
+			hi = mid
+		} else {
+			lo = mid + 1
+		}
+	}
+	return mk(lo)
+}
+
+type escTarget struct {
+	name string
+	is   func(b byte) bool
+}
+
+var escTargets = []escTarget{
+	{"bs", func(b byte) bool { return b == '\\' }},
+	{"quote", func(b byte) bool { return b == '"' }},
+	{"high", func(b byte) bool { return b > 0x7e }},
+	{"low", func(b byte) bool { return b < 0x20 }},
+	{"dot", func(b byte) bool { return b == '.' }},
+}
+
+// special byte strings placed by the Raw sweep: every class miekg or the wrappers escape, the escape sequences
+// themselves (a payload that looks like an escape), and name syntax
+var rawSpecials = [][]byte{
+	{'\\'}, {'"'}, {0x00}, {0x1f}, {0x7f}, {0xff}, {'.'}, {';'},
+	{'\\', '1', '2', '3'}, {'\\', '\\'}, {'\\', '"'}, {'\\', '.'},
+}
+
+func (c dnsrespComp) boundarySweep(r *Rand, thorough bool, emit func(string)) {
+	domain := "example.org"
+	s := util.GetLongestDataString(domain)
+	type plan struct {
+		rr       string
+		bounds   []int // stream offsets at which a new piece starts
+		window   int
+		specials int // how many of rawSpecials
+		codecs   []string
+	}
+	w := 4
+	if thorough {
+		w = 8
+	}
+	all := respCodecs
+	plans := []plan{
+		// first string = 2 order characters + 253 stream bytes, then 253 each
+		{"txt", []int{253, 506, 759}, w, len(rawSpecials), all},
+		{"a", []int{3, 6, 9}, 3, 4, all},
+		{"aaaa", []int{14, 28, 42}, w, 4, all},
+		// labels of 63 characters (CNAME: 2 order characters first), records of GetLongestDataString
+		{"cname", []int{61, 124, 187, s, 2 * s, 3 * s}, w, len(rawSpecials), all},
+		{"mx", []int{63, 126, 189, s, 2 * s, 3 * s}, w, len(rawSpecials), all},
+		{"srv", []int{63, 126, s, 2 * s, 3 * s}, w, len(rawSpecials), all},
+	}
+	if thorough {
+		plans = append(plans,
+			plan{"txt", []int{250 * 253, 500 * 253}, 2, 3, []string{"R", "V"}},
+			plan{"null", []int{65530, 2 * 65530, 3 * 65530}, 1, 2, []string{"R", "T"}},
+			plan{"priv", []int{65530, 2 * 65530, 3 * 65530}, 1, 2, []string{"R", "T"}})
+	} else {
+		plans = append(plans,
+			plan{"null", []int{65530}, 1, 2, []string{"R"}},
+			plan{"priv", []int{65530}, 1, 2, []string{"R"}})
+	}
+	emitData := func(k, rr string, data []byte) {
+		c.emitResp(emit, k, domain, rr, fmt.Sprintf("c _ 1 1 2 %s", hexs(data)))
+	}
+	for _, p := range plans {
+		for _, k := range p.codecs {
+			// which escapable classes can this codec emit at all?
+			var targets []escTarget
+			if k != "R" {
+				seen := [256]bool{}
+				for i := 0; i < 8; i++ {
+					for _, b := range streamOf(k, r.Bytes(512)) {
+						seen[b] = true
+					}
+				}
+				for _, t := range escTargets {
+					for b := 0; b < 256; b++ {
+						if seen[b] && t.is(byte(b)) {
+							targets = append(targets, t)
+							break
+						}
+					}
+				}
+			}
+			for _, bnd := range p.bounds {
+				for _, l := range []int{bnd - 1, bnd, bnd + 1, bnd + p.window + 1} {
+					base := payloadForStreamLen(r, k, l)
+					st := streamOf(k, base)
+					if st == nil {
+						continue
+					}
+					hdr := len(st) - len(base)
+					if k != "R" || hdr < 0 {
+						hdr = 0
+					}
+					emitData(k, p.rr, base)
+					for o := bnd - p.window; o <= bnd+p.window; o++ {
+						if o < 1 || o >= len(st) {
+							continue
+						}
+						if k == "R" {
+							for _, sp := range rawSpecials[:p.specials] {
+								po := o - hdr
+								if po < 0 || po+len(sp) > len(base) {
+									continue
+								}
+								d := append([]byte{}, base...)
+								copy(d[po:], sp)
+								emitData(k, p.rr, d)
+							}
+							continue
+						}
+						for _, t := range targets {
+							// search: perturb payload bytes near the corresponding position until the real encoder
+							// puts a byte of this class at stream offset o
+							d := append([]byte{}, base...)
+							centre := o * len(d) / len(st)
+							for try := 0; try < 1500; try++ {
+								if e := streamOf(k, d); o < len(e) && t.is(e[o]) {
+									emitData(k, p.rr, d)
+									break
+								}
+								pos := centre - 6 + r.Intn(10)
+								if pos < 0 {
+									pos = 0
+								}
+								if pos >= len(d) {
+									pos = len(d) - 1
+								}
+								if pos >= 0 {
+									d[pos] = byte(r.Next())
+								}
+							}
+						}
+					}
+				}
+			}
+		}
 	}
 }
